@@ -162,10 +162,14 @@ func (e *Env) DeleteGlobal(symbol string) {
 
 // Addr returns reflect.Addr of value for first matching symbol found in current or parent scope.
 func (e *Env) Addr(symbol string) (reflect.Value, error) {
+	// like GetValue: the lock is not held while the lookup object or the parent is asked
+	// (a lookup that reads this scope would deadlock behind a waiting writer)
 	e.rwMutex.RLock()
-	defer e.rwMutex.RUnlock()
+	v, ok := e.values[symbol]
+	externalLookup := e.externalLookup
+	e.rwMutex.RUnlock()
 
-	if v, ok := e.values[symbol]; ok {
+	if ok {
 		if isSharedNil(v) {
 			return reflect.New(v.Type()), nil
 		}
@@ -174,8 +178,8 @@ func (e *Env) Addr(symbol string) (reflect.Value, error) {
 		}
 		return NilValue, fmt.Errorf("unaddressable")
 	}
-	if e.externalLookup != nil {
-		v, err := e.externalLookup.Get(symbol)
+	if externalLookup != nil {
+		v, err := externalLookup.Get(symbol)
 		if err == nil {
 			if isSharedNil(v) {
 				return reflect.New(v.Type()), nil
